@@ -15,8 +15,8 @@ VALUES = [1, 2]
 
 
 RICH_VALUES = ['regex("ab.*c")', '{"a", "b"}', '[[1], {"k": [2, 3]}]', "None", "True", "1.5", '{"k": {"n": [1, {"z": "q"}]}}', '"text \\"quoted\\""', "[]", "{}", "-3",
-               # containers whose keys / members are not strings, tuples, sets inside containers, case-insensitive regexes
-               '{1: "a", 2: "b"}', "(1, 2)", '{"k": {"a", "b"}}', 'regex("(?i)ab")', "{(1, 2)}", "[(1, 2), (3,)]", "0.1", '{True: "t"}', '{1.5: [1]}']
+               # containers whose keys / members are not strings, tuples (Colang has no tuple literal: they come out of .items() and find_all), sets inside containers, case-insensitive regexes
+               '{1: "a", 2: "b"}', 'list({"a": 1, "b": 2}.items())[0]', '{"k": {"a", "b"}}', 'regex("(?i)ab")', 'find_all(regex("(t)(o)"), "to to")', '{"k": list({"a": 1}.items())[0]}', "0.1", '{True: "t"}', '{1.5: [1]}']
 
 
 def render_args(args):
@@ -285,7 +285,7 @@ class Gen:
             v = "$r%d" % d.randint(0, 2, key, "rv")
             expr = d.choice(RICH_VALUES, key, "rich")
             out = []
-            if self.allow_actions and not expr.startswith("regex") and d.chance(0.3, key, "viaaction"):
+            if self.allow_actions and not expr.startswith("regex") and expr != "{}" and d.chance(0.3, key, "viaaction"):  # (`{}` as a call argument does not parse)
                 # the value lives in the start arguments of an action object; it is read back from there after the wait
                 ref = "$" + self.fresh("d")
                 return [{"k": "raw", "text": "start DataBotAction(data=%s) as %s" % (expr, ref)}, self.wait_external((key, "rw")),
